@@ -82,6 +82,32 @@ func (s *gosched) run() bool {
 	h := s.hook
 	verifYieldHook.Store(&h)
 	defer verifYieldHook.Store(nil)
+	// per-task lock sets: a task that read-locks (or locks) a mutex it already holds is a deadlock in waiting — a
+	// writer queued between the two acquisitions blocks the second one forever (sync.RWMutex documents recursive
+	// read locking as prohibited). The lock points never queue a writer, so this hazard would not manifest by itself.
+	held := map[*gtask]map[any]int{}
+	le := func(op byte, l any) {
+		t := s.current
+		if t == nil || s.kill {
+			return
+		}
+		switch op {
+		case 'L', 'R':
+			if held[t] == nil {
+				held[t] = map[any]int{}
+			}
+			if held[t][l] > 0 && !s.rc.Failed() {
+				s.rc.Fail("recursive-lock", "task %s acquires (%c) a mutex it already holds, at %s: a writer queued in between deadlocks it", t.name, op, t.site)
+			}
+			held[t][l]++
+		case 'u', 'r':
+			if held[t] != nil && held[t][l] > 0 {
+				held[t][l]--
+			}
+		}
+	}
+	verifLockEventHook.Store(&le)
+	defer verifLockEventHook.Store(nil)
 	spin := 0
 	for {
 		var live []*gtask
